@@ -641,6 +641,8 @@ class Server(BaseComponent):
 
     @handler('write')
     def write(self, sock, data):
+        if sock not in self._clients:
+            return
         if not self._poller.isWriting(sock):
             self._poller.addWriter(self, sock)
         self._buffers[sock].append(data)
